@@ -158,6 +158,12 @@ func runC15(p *Prog, r *Result) {
 	checkStructAlwaysEncoded(p, r, "R15f")
 	r.Rule("R15h", "Encode returns only errors handed to it by the JSON encoder or the writer", 1)
 	checkEncodeErrors(p, r, "R15h")
+	r.Rule("R15i", "in package typedjson a node is asked for its Pos() or End() only on the encoding side, never in code reachable from Decode", 2)
+	checkPosCallsOnlyWhenEncoding(p, r, "R15i")
+	r.Rule("R15j", "a buffer taken from a sync.Pool is emptied before use, or on every path before it goes back", 0)
+	if n := checkPooledBufferReset(p, r, "syntax/typedjson", "R15j"); n == 0 {
+		r.Notef("R15j: typedjson uses no pooled buffers on this tree; the rule is armed by a control")
+	}
 	r.Rule("R15g", "a counter that a typedjson function increments and decrements is decremented on every path to a return", 0)
 	checkBalancedCounters(p, r, "syntax/typedjson", "R15g")
 	r.Rule("R15d", "reflect operations on untrusted-shape values in decodeValue/decodePos are dominated by the kind/assignability test that makes them safe", 23)
@@ -763,6 +769,13 @@ func unmarshalTable(info *types.Info, fd *ast.FuncDecl) (map[string]int64, strin
 }
 
 var c15Controls = []Control{
+	{Name: "decoder-asks-a-half-built-node-for-its-position", Rule: "R15i", WantKey: "decodeValue#node.Pos() is not reachable from Decode", File: "syntax/typedjson/json.go",
+		Mutate: ctlReplaceAnywhere("func decodeValue(val reflect.Value, enc any) error {\n", "func decodeValue(val reflect.Value, enc any) error {\n\tif node, _ := val.Interface().(syntax.Node); node != nil && enc == nil {\n\t\t_ = node.Pos()\n\t}\n")},
+	{Name: "pooled-encode-buffer-not-emptied", Rule: "R15j", WantKey: "Encode#buf from a pool is emptied before use", File: "syntax/typedjson/json.go",
+		Mutate: ctlChain(ctlReplaceAnywhere("\tenc := json.NewEncoder(w)\n", "\tbuf := encodeBufs.Get().(*bytes.Buffer)\n\tdefer encodeBufs.Put(buf)\n\tdefer buf.WriteTo(w)\n\tenc := json.NewEncoder(buf)\n"),
+			ctlReplaceAnywhere("import (\n", "import (\n\t\"bytes\"\n\t\"sync\"\n"),
+			ctlAppendDecl("var encodeBufs = sync.Pool{New: func() any { return new(bytes.Buffer) }}\n")),
+	},
 	{Name: "encode-refuses-a-tree", Rule: "R15h", WantKey: "Encode#returns", File: "syntax/typedjson/json.go",
 		Mutate: ctlReplaceAnywhere("\tencVal.Elem().Field(0).SetString(tname)\n\tenc := json.NewEncoder(w)", "\tencVal.Elem().Field(0).SetString(tname)\n\tif tname == \"Comment\" {\n\t\treturn fmt.Errorf(\"cannot encode a lone comment\")\n\t}\n\tenc := json.NewEncoder(w)")},
 	{Name: "decoder-depth-counter-leaks", Rule: "R15g", WantKey: "++ is undone on every path", File: "syntax/typedjson/json.go",
